@@ -76,6 +76,12 @@ type Env struct {
 	loops    []EventLoop
 	Summary  string // abstract description of the run (sample for the evidence)
 	State    string // abstract state signature (distinct-state measure)
+	// LocalCloseAt >= 0: a user Close of the connection under test was invoked at that step while its
+	// reader task may be inside a Reader call. Close releases the input buffer without synchronising
+	// with a reader that already has its bytes (the documented unsynchronised buffer, DESIGN.md 6.5):
+	// a panic of that reader inside the buffer code after that step is not a verdict of these properties.
+	LocalCloseAt int
+	ReaderTask   string
 }
 
 func (e *Env) Rec(kind string, conn, n int, s string) {
@@ -409,7 +415,7 @@ func SimRunScenario(name string, cfg simrt.Config) *SimResult {
 	if cfg.MaxSteps == 0 {
 		cfg.MaxSteps = sc.MaxSteps
 	}
-	e := &Env{Sc: sc}
+	e := &Env{Sc: sc, LocalCloseAt: -1}
 	res := simrt.Run(cfg, func() {
 		sc.Run(e)
 	})
@@ -425,6 +431,11 @@ func SimRunScenario(name string, cfg simrt.Config) *SimResult {
 			// the harness could not set its scenario up (not a verdict)
 			res.Outcome = "harness-error"
 			res.Blocked = append(res.Blocked, p.Value)
+		}
+		if e.LocalCloseAt >= 0 && p.Step >= e.LocalCloseAt && e.ReaderTask != "" && strings.HasPrefix(p.Task, e.ReaderTask) &&
+			strings.Contains(p.Stack, "nocopy_linkbuffer.go") {
+			simrt.Probe("reader_panic_under_local_close")
+			continue
 		}
 		if !strings.Contains(p.Value, "harness:") {
 			site := panicSite(p.Stack)
